@@ -9,6 +9,7 @@ import json
 
 from .coinstate import CoinState, PKBalance
 from .humans import computer, human
+from .params import MAX_BLOCK_SIZE
 from .signing import SECP256k1PublicKey, SECP256k1Signature
 from .datatypes import Input, Transaction, Output, OutputReference
 
@@ -170,6 +171,11 @@ def create_spend_transaction(
                     ))
 
                 transaction = sign_transaction(wallet, unspent_transaction_outs, Transaction(inputs, outputs))
+
+                if len(transaction.serialize()) > MAX_BLOCK_SIZE:
+                    # a transaction that does not fit in a block can never be mined; refuse (nothing has been marked as
+                    # spent yet) rather than hand out a transaction every node will reject.
+                    raise Exception("Transaction too large (%d inputs): spend a smaller amount at a time" % len(inputs))
 
                 # only mark the outputs as spent once we actually have a transaction that spends them; marking them
                 # while collecting would make a failed attempt ("Insufficient balance") block later, affordable, spends.
